@@ -27,6 +27,8 @@ VERIF = os.path.dirname(os.path.dirname(os.path.abspath(__file__)))
 REPO = os.environ.get("VERIF_REPO", "/repo")
 COQDIR = os.path.join(VERIF, "coq")
 WORK = os.path.join(VERIF, ".work")
+if os.environ.get("VERIF_WORK"):       # a separate scratch root, so that a run against another tree cannot collide with a run against /repo
+    WORK = os.environ["VERIF_WORK"]
 PY = "/venv/bin/python"
 
 FORBIDDEN = re.compile(
@@ -220,7 +222,8 @@ def coq_obligations(pid, allowed_axioms=()):
     ensure_makefile()
     target = "theories/Props/%s.vo" % pid
     os.makedirs(WORK, exist_ok=True)
-    with open(os.path.join(WORK, ".coqlock"), "w") as lock:
+    os.makedirs(os.path.join(VERIF, ".work"), exist_ok=True)
+    with open(os.path.join(VERIF, ".work", ".coqlock"), "w") as lock:
         fcntl.flock(lock, fcntl.LOCK_EX)
         # the property's theorem file and every executable model (the generated case files import models that the
         # theorem file does not depend on, e.g. Model/C04x, Model/C07: they must never be stale)
@@ -575,8 +578,16 @@ def parse_args(argv):
         if ch:
             # the code this property is anchored in is not the code the model was last validated against:
             # explore with the thorough budget (a change that needs a rare input to manifest is the case to catch)
+            # First the ordinary quick pass (in a child process): whatever it finds is reported at once.  Only when it is
+            # clean does this process go on with the thorough budget.
+            print("[%s] anchored source changed since the recorded fingerprints (%s): quick pass first, then the thorough budget"
+                  % (a.pid, ", ".join(ch[:4]) + (" ..." if len(ch) > 4 else "")), flush=True)
+            import subprocess
+            rc = subprocess.call([sys.executable, "-W", "ignore", os.path.abspath(sys.argv[0])] + list(argv),
+                                 env=dict(os.environ, VERIF_NO_ESCALATE="1"))
+            if rc != 0:
+                sys.exit(rc)
             ESCALATED.extend(ch)
-            print("[%s] anchored source changed since the recorded fingerprints (%s): running with the thorough budget"
-                  % (a.pid, ", ".join(ch[:4]) + (" ..." if len(ch) > 4 else "")))
+            print("[%s] quick pass clean on the changed source: running with the thorough budget" % a.pid, flush=True)
             a.tier = "thorough"
     return a
